@@ -98,6 +98,8 @@ func symbols() *sl.Symbols {
 		sl.Op{Name: "upd1(remove)", Kind: "upd", Ids: []int{1}, Docs: []sl.Doc{{"s": "_delete", "si": "_delete", "tags": "_delete", "tagsi": "_delete", "a": "_delete", "f": "_delete", "n": "_delete"}}},
 		sl.Op{Name: "upd1(add v0)", Kind: "upd", Ids: []int{1}, Docs: []sl.Doc{docB(0)}},
 		sl.Op{Name: "upd2(n:{x})", Kind: "upd", Ids: []int{2}, Docs: []sl.Doc{{"n": sl.Doc{"x": int64(7)}, "tags": []string{}}}},
+		sl.Op{Name: "upd1(tags -> duplicates, same length)", Kind: "upd", Ids: []int{1}, Docs: []sl.Doc{{"tags": []string{"x", "x"}, "tagsi": []string{"x", "X"}}}},
+		sl.Op{Name: "upd2(tags reordered)", Kind: "upd", Ids: []int{2}, Docs: []sl.Doc{{"tags": []string{"Ab", "x"}, "tagsi": []string{"ab", "x"}}}},
 		sl.Op{Name: "del1", Kind: "del", Ids: []int{1}},
 		sl.Op{Name: "del1,2", Kind: "del", Ids: []int{1, 2}},
 		sl.Op{Name: "ins1(empty strings)", Kind: "ins", Ids: []int{1}, Docs: []sl.Doc{{"s": "", "si": "", "tags": []string{""}, "a": int64(0)}}},
@@ -165,7 +167,7 @@ func master(cfg *harness.Config, rep *harness.Report) {
 	if !cfg.Quick() {
 		depth = 8
 	}
-	hist := []string{"ins1(v0)", "ins2(v0)", "ins3(v1)", "upd1(v1)", "upd1,2(v2)", "upd1(remove)", "upd1(add v0)", "upd2(n:{x})", "del1", "del1,2", "ins1(empty strings)"}
+	hist := []string{"ins1(v0)", "ins2(v0)", "ins3(v1)", "upd1(v1)", "upd1,2(v2)", "upd1(remove)", "upd1(add v0)", "upd2(n:{x})", "upd1(tags -> duplicates, same length)", "upd2(tags reordered)", "del1", "del1,2", "ins1(empty strings)"}
 	var specs []seqx.Spec
 	for _, be := range []string{"bbolt", "mem"} {
 		specs = append(specs,
